@@ -25,8 +25,9 @@ from . import tlc
 from .tlc import Machinery
 
 ROOT = Path(__file__).resolve().parent.parent
-EVID = ROOT / "evidence"
-REPLAYS = ROOT / "replays"
+_SCRATCH = bool(os.environ.get("VERIF_REPO"))     # seeded-change experiments never overwrite the real evidence
+EVID = (ROOT / ".work" / "evidence") if _SCRATCH else ROOT / "evidence"
+REPLAYS = (ROOT / ".work" / "replays") if _SCRATCH else ROOT / "replays"
 FINDINGS = ROOT / "known_findings.json"
 
 
@@ -218,7 +219,7 @@ def _run(prop: Prop, ctx: Ctx, t0: float, replay: str | None) -> int:
     rc = 0
     replay_paths = []
     if own:
-        REPLAYS.mkdir(exist_ok=True)
+        REPLAYS.mkdir(parents=True, exist_ok=True)
         seen_clause: set[str] = set()
         for b in own:
             key = b["why"][0]
@@ -283,7 +284,7 @@ def _run(prop: Prop, ctx: Ctx, t0: float, replay: str | None) -> int:
         "violations": len(own),
     }
     if not replay:
-        EVID.mkdir(exist_ok=True)
+        EVID.mkdir(parents=True, exist_ok=True)
         (EVID / f"{prop.id}.json").write_text(json.dumps(ev, indent=1, default=str))
     if rc == 0:
         print(f"OK property={prop.id}: held on everything explored "
